@@ -128,7 +128,7 @@ func (c *Classifier) AddValue(key, value string) error {
 	c.values[key] = &knownValue{
 		key:             key,
 		normalizedValue: norm,
-		reValue:         regexp.MustCompile(norm),
+		reValue:         regexp.MustCompile(regexp.QuoteMeta(norm)),
 	}
 	return nil
 }
@@ -146,7 +146,7 @@ func (c *Classifier) AddPrecomputedValue(key, value string, set *searchset.Searc
 	c.values[key] = &knownValue{
 		key:             key,
 		normalizedValue: value,
-		reValue:         regexp.MustCompile(value),
+		reValue:         regexp.MustCompile(regexp.QuoteMeta(value)),
 		set:             set,
 	}
 	return nil
